@@ -16,8 +16,11 @@ def clean_abs_paths(names, depth):
 def gen(tier, rng):
     P = clean_abs_paths(NAMES, 4)
     lines = [f'relnav {vlib.hx(p)} {vlib.hx(b)}' for p in P for b in P]
+    # names that are string prefixes of each other (component-wise vs string-wise prefix tests differ on them)
+    Q = clean_abs_paths(['a', 'ab', 'a.b'], 3)
+    lines += [f'relnav {vlib.hx(p)} {vlib.hx(b)}' for p in Q for b in Q]
     nrand = 5000 if tier == 'quick' else 100000
-    wide = ['a', 'b', 'é', '漢字', 'x.y', 'name with space', '😀']
+    wide = ['a', 'b', 'é', '漢字', 'x.y', 'name with space', '😀', 'ab', 'a1', 'éé']
     for _ in range(nrand):
         p = '/' + '/'.join(rng.choice(wide) for _ in range(rng.randint(0, 8)))
         b = '/' + '/'.join(rng.choice(wide) for _ in range(rng.randint(0, 8)))
@@ -26,7 +29,7 @@ def gen(tier, rng):
         if b != '/':
             b = b.rstrip('/')
         lines.append(f'relnav {vlib.hx(p)} {vlib.hx(b)}')
-    return lines, dict(kind='exhaustive+random', names=NAMES, max_components=4, exhaustive=True, pairs=len(P) ** 2, random=nrand)
+    return lines, dict(kind='exhaustive+random', names=NAMES, max_components=4, exhaustive=True, pairs=len(P) ** 2, prefix_name_pairs=len(Q) ** 2, random=nrand)
 
 
 def nontrivial(req, impl):
@@ -36,7 +39,7 @@ def nontrivial(req, impl):
 
 SPEC = dict(
     prop='C16', lean_mod='Rivia.Props.C16', mode='pathfn', gen=gen, nontrivial=nontrivial,
-    rule='all ordered pairs of clean absolute paths with <= 4 components over 3 names (121^2), plus seeded random deeper pairs with multi-byte names; '
+    rule='all ordered pairs of clean absolute paths with <= 4 components over 3 names (121^2), all pairs with <= 3 components over the names {a, ab, a.b} (names that are string prefixes of each other), plus seeded random deeper pairs with multi-byte names; '
          'each request returns relative(p,b) and clean(b joined with it); non-trivial = p != b',
     assumptions=['std::path::Components / PathBuf::push / collect as transcribed (validated by this run)', 'paths are valid UTF-8'],
     trusted_base=['hand transcription Rust->Lean of sys::relative (checked by the correspondence run)', 'Rust harness + Python driver'],
